@@ -46,6 +46,11 @@ def batch_rules(run, db):
     conv = [n for n in walk_no_nested(f.node) if isinstance(n, ast.Assign) and ast.unparse(n.targets[0]) == 'aoi' and 'radians' in ast.unparse(n.value)]
     calls = [n for n in walk_no_nested(f.node) if isinstance(n, ast.Call) and ast.unparse(n.func) == 'snell_aor']
     okd = len(conv) == 1 and len(calls) >= 2 and all(any(k.arg == 'degrees' and isinstance(k.value, ast.Constant) and k.value.value is False for k in c.keywords) for c in calls)
+    # Snell's invariant n sin(theta): the index handed over with an angle must be the index of the medium that angle is measured in
+    pairs = {(ast.unparse(c.args[0]), ast.unparse(c.args[2])) for c in calls if len(c.args) >= 3}
+    run.check(pairs == {('ambient_index', 'aoi')}, 'C17.batch', f.qual, 'snell pairing', 'every layer angle is obtained from the ambient pair (ambient_index, aoi): n0 sin(aoi) = n_i sin(theta_i)',
+              'snell_aor is called with the (index, angle) pairs %s: the angle of incidence in the ambient medium is combined with the index of another medium, so n sin(theta) is not conserved through the stack'
+              % sorted(pairs), f.loc())
     run.check(okd, 'C17.batch', f.qual, 'angle units', 'aoi is converted to radians once and every snell_aor call is told degrees=False', 'an snell_aor call re-converts the already-radian angle of incidence (degrees flag missing)', f.loc())
 
 
